@@ -271,61 +271,128 @@ def esys_list(obj):
     return list(obj.composite_system.elemental_systems)
 
 
-def oracle_node(ctx, t, factors, rep):
+def eval_node(t, factors, rep, viol):
+    """evaluate one grouping node by node on the real code against the reference.
+    Returns (obj | None, ref, clean, errkind): obj None = the implementation raised (errkind says what);
+    clean False = an upstream node already deviated from the reference (no further attribution)."""
     if isinstance(t, int):
         f = factors[t]
-        return f.obj, Ref(f.kind, [f])
-    a, ra = oracle_node(ctx, t[0], factors, rep)
-    b, rb = oracle_node(ctx, t[1], factors, rep)
-    if a is None or b is None:
-        return None, None
+        return f.obj, Ref(f.kind, [f]), True, None
+    a, ra, ca, ea = eval_node(t[0], factors, rep, viol)
+    if a is None:
+        return None, None, False, ea
+    b, rb, cb, eb = eval_node(t[1], factors, rep, viol)
+    if b is None:
+        return None, None, False, eb
     pair = f"{TNAME.get(type(a), '?')}-{TNAME.get(type(b), '?')}"
     ref = ref_join(ra, rb)
     r = dict(rep, node=tstr(t), pair=pair)
     try:
         obj = _tensor_product(a, b)
     except Exception as e:  # noqa
-        sig = perm_failure_sig(esys_list(a) + esys_list(b)) or f"C07/tensor/{pair}/raises"
-        ctx.violate(sig, f"{type(e).__name__}: {str(e)[:120]} at node {tstr(t)}; system order "
-                         f"{[x.name for x in esys_list(a) + esys_list(b)]}, dims {[x.dim for x in esys_list(a) + esys_list(b)]}", r)
-        return None, None
-    bad = check_ref(obj, ref)
-    if bad:
-        ctx.violate(f"C07/tensor/{pair}/{bad[0]}", f"{bad[1]} (node {tstr(t)}, names {rep['names']}, dims {rep['dims']}, "
-                                                   f"outcome counts {rep['counts']})", r)
-        return None, None
-    if type(obj) != StateEnsemble and not obj.is_physical(1e-9, 1e-9):
-        ctx.violate(f"C07/tensor/{pair}/physical", "physical factors, non-physical product", r)
-        return None, None
-    return obj, ref
+        if ca and cb:
+            sig = perm_failure_sig(esys_list(a) + esys_list(b)) or f"C07/tensor/{pair}/raises"
+            viol.append((sig, f"{type(e).__name__}: {str(e)[:120]} at node {tstr(t)}; system order "
+                              f"{[x.name for x in esys_list(a) + esys_list(b)]}, dims {[x.dim for x in esys_list(a) + esys_list(b)]}", r))
+        return None, None, False, err_kind(e)
+    clean = ca and cb
+    if clean:
+        bad = check_ref(obj, ref)
+        if bad:
+            viol.append((f"C07/tensor/{pair}/{bad[0]}", f"{bad[1]} (node {tstr(t)}, names {rep['names']}, dims {rep['dims']}, "
+                                                         f"outcome counts {rep['counts']})", r))
+            clean = False
+        elif type(obj) != StateEnsemble and not obj.is_physical(1e-9, 1e-9):
+            viol.append((f"C07/tensor/{pair}/physical", "physical factors, non-physical product", r))
+            clean = False
+    return obj, ref, clean, None
 
 
 # ----------------------------------------------------------------------------- plans
+def all_arrangements(k):
+    return [(perm, tr) for perm in itertools.permutations(range(k)) for tr in trees(0, k)]
+
+
+def pick(arr, n, g):
+    if n >= len(arr):
+        return list(arr)
+    idx = sorted(int(i) for i in g.choice(len(arr), size=n, replace=False))
+    return [arr[i] for i in idx]
+
+
 def config_plan(ctx, volume=1):
-    """(type string, names, dims) deterministic list; names are distinct, not necessarily 0..k-1.
-    `_tensor_product_hs_hs` materialises a (d1·d2)² × (d1·d2)² matrix (134 MB for three qubits, 344 MB for two
-    qutrits), so gate-like products of three subsystems / two qutrits are rationed."""
+    """list of dict(ts, names, dims, arr): which (argument order, grouping) pairs are evaluated.
+    Costs on the real code that ration the plan: `CompositeSystem([...])` takes 19 s for four qubits, 82 s with a
+    qutrit among four, 4 s for qubit·qutrit·qubit; `_tensor_product_hs_hs` materialises a (d1·d2)² square matrix
+    (134 MB for three qubits, 344 MB for two qutrits)."""
     g = ctx.npgen(7)
-    plan = []
     quick = ctx.quick and volume == 1
-    type_sets = {2: ["SS", "PP", "GG", "GM", "MG", "MM", "SE", "ES", "EE"],
-                 3: ["SSS", "PPP", "GGG", "GMG", "SES", "EES", "EEE"] + ([] if quick else ["MMM", "MGM"]),
-                 4: ["SSSS", "PPPP", "SESE"]}
-    for k in (2, 3, 4):
-        for ts in type_sets[k]:
-            heavy = any(c in "GM" for c in ts)
-            reps = (1 if (quick or (heavy and k == 3)) else 2) * volume
-            for rpt in range(reps):
-                names = sorted(int(x) for x in g.choice(9, size=k, replace=False))
-                if k == 4:
-                    dims = [2, 2, 2, 2] if (quick or rpt == 0) else [2, 3, 2, 2]
-                elif k == 3:
-                    dims = [2, 2, 2] if (heavy or (quick and rpt == 0)) else [[2, 3, 2], [3, 2, 2], [2, 2, 3]][int(g.integers(0, 3))]
-                else:
-                    pool = [[2, 3], [3, 2], [2, 2]] + ([[3, 3]] if (not heavy or (not quick and ts == "GG")) else [])
-                    dims = pool[(len(plan) + rpt) % len(pool)]
-                plan.append((ts, names, dims))
+    plan = []
+
+    def add(ts, dims, n):
+        k = len(ts)
+        names = sorted(int(x) for x in g.choice(9, size=k, replace=False))
+        plan.append({"ts": ts, "names": names, "dims": dims, "arr": pick(all_arrangements(k), n, g)})
+
+    light2 = ["SS", "PP", "SE", "ES", "EE"]
+    heavy2 = ["GG", "GM", "MG", "MM"]
+    pool2 = [[2, 3], [3, 2], [2, 2], [3, 3]]
+    for i, ts in enumerate(light2):
+        for r in range(1 if quick else 2):
+            add(ts, pool2[(i + r) % 4], 2)
+    for i, ts in enumerate(heavy2):
+        for r in range(1 if quick else 3):
+            add(ts, pool2[(i + r) % 3], 2)
+    if not quick:
+        add("GG", [3, 3], 1)
+        add("MM", [2, 2], 2)
+    # three subsystems
+    for ts in ["SSS", "PPP", "SES", "EES", "EEE"]:
+        add(ts, [2, 2, 2], 12 if not quick else 6)
+    for ts in ["GGG", "GMG"] + ([] if quick else ["MMM", "MGM", "GGM"]):
+        add(ts, [2, 2, 2], 2 if quick else 4)
+    mixed3 = [[2, 3, 2], [3, 2, 2], [2, 2, 3]]
+    for i, ts in enumerate(["SSS", "PPP"] + ([] if quick else ["SES", "EEE"])):
+        add(ts, mixed3[(i + ctx.seed) % 3], 1 if quick else 6)
+    # four subsystems: every order is checked on calc_permutation_matrix directly (oracle_perm); full products are rationed
+    def four(ts, dims, n_fail, n_ok):
+        names = sorted(int(x) for x in g.choice(9, size=4, replace=False))
+        arr = all_arrangements(4)
+        def fails(perm, tr):       # a swap at position 1 or 3 of a 4-list is needed somewhere
+            return perm_needs_outer_swap([names[i] for i in perm], tr)
+        bad = [a for a in arr if fails(*a)]
+        good = [a for a in arr if not fails(*a) and list(a[0]) != [0, 1, 2, 3]]
+        plan.append({"ts": ts, "names": names, "dims": dims, "arr": pick(bad, n_fail, g) + pick(good, n_ok, g)})
+    if quick:
+        four("SSSS", [2, 2, 2, 2], 1, 0)
+    else:
+        four("SSSS", [2, 2, 2, 2], 4, 6)
+        four("PPPP", [2, 2, 2, 2], 2, 5)
+        four("SESE", [2, 2, 2, 2], 1, 3)
+        four("SSSS", [2, 3, 2, 2], 1, 1)
     return plan
+
+
+def perm_needs_outer_swap(names, tr):
+    """does evaluating grouping `tr` on factors with these names (argument order) ever bubble at position 1 or 3
+    of a four-element list (where sum and product sizes differ)?  Pure bookkeeping on names."""
+    hit = [False]
+
+    def rec(t):
+        if isinstance(t, int):
+            return [names[t]]
+        l = rec(t[0]) + rec(t[1])      # sorted(left) ++ sorted(right)
+        cur = list(l)
+        while True:
+            pos = next((i for i in range(1, len(cur)) if cur[i - 1] > cur[i]), None)
+            if pos is None:
+                break
+            if len(cur) == 4 and pos in (1, 3):
+                hit[0] = True
+            cur[pos - 1], cur[pos] = cur[pos], cur[pos - 1]
+        return sorted(l)
+    rec(tr)
+    return hit[0]
 
 
 def counts_for(k, g):
@@ -335,16 +402,32 @@ def counts_for(k, g):
     return [int(m) for m in ms]
 
 
-def arrangements(k, quick, g):
-    """(argument order, grouping) pairs: all of them for k <= 3, a spread for k = 4 in the quick tier"""
-    out = []
-    for perm in itertools.permutations(range(k)):
-        for tr in trees(0, k):
-            out.append((perm, tr))
-    if k == 4 and quick:
-        idx = sorted(set(int(i) for i in g.choice(len(out), size=14, replace=False)) | {0, len(out) - 1})
-        out = [out[i] for i in idx]
-    return out
+_CACHE = {}
+
+
+def run_cases(ctx, volume=1):
+    """evaluate the plan once on the real code (shared by correspondence and oracle)"""
+    key = (ctx.seed, ctx.tier, volume)
+    if key in _CACHE:
+        return _CACHE[key]
+    g = ctx.npgen(3)
+    recs = []
+    for cfg in config_plan(ctx, volume):
+        ts, names, dims = cfg["ts"], cfg["names"], cfg["dims"]
+        k = len(ts)
+        counts = counts_for(k, g)
+        factors = [make_factor(g, ts[i], names[i], dims[i], counts[i], t=i + len(recs)) for i in range(k)]
+        for perm, tr in cfg["arr"]:
+            fs = [factors[i] for i in perm]
+            rep = {"replay_kind": "tensor", "types": "".join(f.kind for f in fs), "names": [f.esys.name for f in fs],
+                   "dims": [f.esys.dim for f in fs], "counts": [f.counts for f in fs], "tree": tstr(tr),
+                   "seed": ctx.seed, "tier": ctx.tier, "volume": volume}
+            viol = []
+            obj, ref, clean, ek = eval_node(tr, fs, rep, viol)
+            recs.append({"ts": ts, "names": names, "dims": dims, "perm": perm, "tree": tr, "fs": fs, "rep": rep,
+                         "obj": obj, "ref": ref, "clean": clean, "err": ek, "viol": viol})
+    _CACHE[key] = recs
+    return recs
 
 
 # ----------------------------------------------------------------------------- encoding for the model
@@ -511,29 +594,29 @@ def correspondence(ctx):
         pend.append(("hshs", (d1, d2), ("ok", impl.shape[0], list(impl.flatten())),
                      drv.ask("hshs", d1 * d1, d2 * d2, qlist(A.flatten()), qlist(Bm.flatten()))))
         ctx.case(("hshs", d1, d2))
-    # --- tensor_product on objects
-    for ts, names, dims in config_plan(ctx):
-        k = len(ts)
-        counts = counts_for(k, g)
-        factors = [make_factor(g, ts[i], names[i], dims[i], counts[i], t=i) for i in range(k)]
-        arr = arrangements(k, ctx.quick, g)
-        if k == 3 and any(c in "GM" for c in ts):
-            arr = [arr[1], arr[-2]] if ctx.quick else arr[1::4]
-        if k == 4 and not ctx.quick:
-            arr = arr[::4]
-        for perm, tr in arr:
-            objs = [factors[i].obj for i in perm]
-            impl = impl_or_err(lambda: canon(eval_tree(tr, objs)))
-            pend.append(("tensor", {"types": ts, "names": [names[i] for i in perm], "dims": [dims[i] for i in perm], "tree": tstr(tr)},
-                         impl, drv.ask("tensor", k, *[enc(o) for o in objs], *rpn(tr))))
-            ctx.count(f"tensor {ts} -> {impl[0]}{':' + impl[1] if impl[0] == 'err' else ''}")
-            ctx.case(("tensor", ts, tuple(names), tuple(dims), perm, tstr(tr)), nontrivial=list(perm) != sorted(perm),
-                     sample={"op": "tensor", "types": ts, "names": [names[i] for i in perm], "grouping": tstr(tr)})
-        # the public left fold on one order
-        perm = arr[len(arr) // 2][0]
-        objs = [factors[i].obj for i in perm]
-        impl = impl_or_err(lambda: canon(tensor_product(*objs)))
-        pend.append(("fold", {"types": ts, "names": [names[i] for i in perm]}, impl, drv.ask("fold", *[enc(o) for o in objs])))
+    # --- tensor_product on objects (every planned argument order and grouping)
+    folded = set()
+    for rec in run_cases(ctx):
+        fs, tr, ts = rec["fs"], rec["tree"], rec["ts"]
+        objs = [f.obj for f in fs]
+        impl = canon(rec["obj"]) if rec["obj"] is not None else ("err", rec["err"])
+        # gate-like products beyond two qubits: the model runs `kron` in place of the (d1·d2)²-square vec-permutation
+        # (equal for all sizes by theorem hs_tensor); the pipeline as coded is executed on the small cases and by `hshs`
+        big = any(c in "GM" for c in ts) and int(np.prod([d * d for d in rec["dims"]])) > 16
+        mode = "exec" if big else "coded"
+        ctx.count(f"tensor model mode {mode}")
+        pend.append(("tensor", {"types": rec["rep"]["types"], "names": rec["rep"]["names"], "dims": rec["rep"]["dims"], "tree": tstr(tr)},
+                     impl, drv.ask("tensor", mode, len(objs), *[enc(o) for o in objs], *rpn(tr))))
+        ctx.count(f"tensor {ts} -> {impl[0]}{':' + impl[1] if impl[0] == 'err' else ''}")
+        ctx.case(("tensor", ts, tuple(rec["names"]), tuple(rec["dims"]), rec["perm"], tstr(tr)),
+                 nontrivial=list(rec["perm"]) != sorted(rec["perm"]),
+                 sample={"op": "tensor", "types": rec["rep"]["types"], "names": rec["rep"]["names"], "grouping": tstr(tr)})
+        # the public left fold, once per configuration of at most three (cheap) subsystems
+        key = (ts, tuple(rec["names"]), tuple(rec["dims"]))
+        if key not in folded and len(objs) <= 3 and 3 not in rec["dims"]:
+            folded.add(key)
+            impl = impl_or_err(lambda: canon(tensor_product(*objs)))
+            pend.append(("fold", {"types": ts, "names": rec["rep"]["names"]}, impl, drv.ask("fold", mode, *[enc(o) for o in objs])))
     # --- error branches: duplicate names, unsupported pairs
     f1 = make_factor(g, "S", 1, 2, 2)
     f2 = make_factor(g, "S", 1, 2, 2)
@@ -541,7 +624,7 @@ def correspondence(ctx):
     f4 = make_factor(g, "G", 3, 2, 2)
     for x, y in ((f1, f2), (f1, f3), (f3, f4), (f4, f1), (f3, f1)):
         impl = impl_or_err(lambda: canon(_tensor_product(x.obj, y.obj)))
-        pend.append(("tensor", {"pair": x.kind + y.kind}, impl, drv.ask("tensor", 2, enc(x.obj), enc(y.obj), "0", "1", "x")))
+        pend.append(("tensor", {"pair": x.kind + y.kind}, impl, drv.ask("tensor", "coded", 2, enc(x.obj), enc(y.obj), "0", "1", "x")))
         ctx.case(("errpair", x.kind, y.kind), nontrivial=False)
     # --- embedding kernels
     for num in (1, 2):
@@ -594,7 +677,7 @@ def oracle_perm(ctx, volume=1):
     """calc_permutation_matrix · (v_σ1 ⊗ … ⊗ v_σk) = v_1 ⊗ … ⊗ v_k in ascending name order"""
     g = ctx.npgen(2)
     for k in (2, 3, 4):
-        size_sets = [[2] * k, [4] * k, [4, 9, 4, 9][:k], [3, 2, 4, 2][:k]]
+        size_sets = [[2] * k, [4] * k, [4, 9, 4, 4][:k], [3, 2, 4, 2][:k]]
         for sizes in size_sets:
             vs = [g.standard_normal(s) for s in sizes]
             for order in itertools.permutations(range(k)):
@@ -624,27 +707,19 @@ def oracle_perm(ctx, volume=1):
 
 
 def oracle_tensor(ctx, volume=1):
-    g = ctx.npgen(3)
-    for ts, names, dims in config_plan(ctx, volume):
-        k = len(ts)
-        counts = counts_for(k, g)
-        factors = [make_factor(g, ts[i], names[i], dims[i], counts[i], t=i + len(names)) for i in range(k)]
-        arr = arrangements(k, False, g)
-        if ctx.quick and k == 4:
-            arr = arr[::3]
-        if k == 3 and any(c in "GM" for c in ts):
-            arr = arr[::3] if ctx.quick else arr[::2]
-        for perm, tr in arr:
-            fs = [factors[i] for i in perm]
-            rep = {"replay_kind": "tensor", "types": "".join(f.kind for f in fs), "names": [f.esys.name for f in fs],
-                   "dims": [f.esys.dim for f in fs], "counts": [f.counts for f in fs], "tree": tstr(tr),
-                   "seed": ctx.seed, "tier": ctx.tier, "volume": volume}
-            ctx.case(("otensor", ts, tuple(names), tuple(dims), perm, tstr(tr)), nontrivial=list(perm) != sorted(perm),
-                     sample={"op": "oracle tensor", "types": rep["types"], "names": rep["names"], "dims": rep["dims"], "grouping": tstr(tr)})
-            ctx.count(f"oracle {ts} k={k}")
-            obj, ref = oracle_node(ctx, tr, fs, rep)
-            if obj is None:
-                continue
+    g = ctx.npgen(5)
+    for rec in run_cases(ctx, volume):
+        fs, tr, ts, rep = rec["fs"], rec["tree"], rec["ts"], rec["rep"]
+        ctx.case(("otensor", ts, tuple(rec["names"]), tuple(rec["dims"]), rec["perm"], tstr(tr)),
+                 nontrivial=list(rec["perm"]) != sorted(rec["perm"]),
+                 sample={"op": "oracle tensor", "types": rep["types"], "names": rep["names"], "dims": rep["dims"], "grouping": tstr(tr)})
+        ctx.count(f"oracle {ts} k={len(ts)}")
+        for sig, what, r in rec["viol"]:
+            ctx.violate(sig, what, r)
+        obj, ref = rec["obj"], rec["ref"]
+        if obj is None or not rec["clean"]:
+            continue
+        if True:
             # product statistics with the reported layout
             if ref.kind == "P":
                 sp = sorted_parts(fs)
@@ -654,7 +729,8 @@ def oracle_tensor(ctx, volume=1):
                 dist = compose_qoperations(obj, st)
                 exp = np.array([np.prod([np.trace(e @ r).real for e, r in zip(c, rhos)])
                                 for c in itertools.product(*[f.ops for f in sp])])
-                if tuple(dist.shape) != tuple(f.counts[0] for f in sp) or not np.allclose(dist.ps, exp, atol=1e-8):
+                # (Povm∘State returns a flat distribution; the layout is the Povm's nums_local_outcomes, checked above)
+                if len(dist.ps) != len(exp) or not np.allclose(dist.ps, exp, atol=1e-8):
                     ctx.violate("C07/tensor/Povm-Povm/statistics", "product POVM on a product state does not give product statistics "
                                 "in the reported layout", rep)
             if ref.kind == "M":
